@@ -119,7 +119,11 @@ func Harness_C13_AlsoKnownAs() {
 	for i := 0; i < n; i++ {
 		tag := string(rune('a' + i))
 		var u string
-		switch verifrt.Choose("uri-"+tag, 3) {
+		switch verifrt.Choose("uri-"+tag, 4) {
+		case 3: // an entry that is not a string
+			uris = append(uris, 7.0)
+			want = false
+			continue
 		case 0:
 			u = "https://example.com/" + verifrt.AnyAtom("p"+tag)
 		case 1:
@@ -151,7 +155,10 @@ func Harness_C13_RemoveLists() {
 	action := []patch.Action{patch.RemovePublicKeys, patch.RemoveServiceEndpoints}[verifrt.Choose("action", 2)]
 	var val interface{}
 	want := true
-	switch c := verifrt.Choose("shape", 6); c {
+	switch c := verifrt.Choose("shape", 7); c {
+	case 6: // a valid id and an entry that is not a string
+		val = []interface{}{"key1", []interface{}{nil, 7.0, map[string]interface{}{}}[verifrt.Choose("odd-id", 3)]}
+		want = false
 	case 0:
 		val = []interface{}{}
 		want = false
